@@ -181,7 +181,7 @@ func genKeys(t *rapid.T, label string, budget int) []uint32 {
 				s.add(st + i*stride)
 			}
 		case 2: // sparse over the whole range
-			n := rapid.IntRange(1, minInt(per, 64)).Draw(t, l+"SparseN")
+			n := rapid.IntRange(1, minInt(per, 200)).Draw(t, l+"SparseN")
 			for i := 0; i < n; i++ {
 				s.add(uint64(rapid.Uint32().Draw(t, l+"Sparse")))
 			}
